@@ -30,9 +30,23 @@ type utr struct {
 	onceR  sync.Once
 	badHS  bool
 	params transport.NegotiationParams
+	closeErr bool
+	gate    chan struct{} // when set: the next Write parks here, then fails (and the connection stays broken for writes)
+	entered chan struct{}
 }
 
 func (u *utr) Write(b []byte) error {
+	u.mu.Lock()
+	if g := u.gate; g != nil {
+		u.gate = nil
+		u.failW = true
+		ent := u.entered
+		u.mu.Unlock()
+		close(ent)
+		<-g
+		return errors.New("scripted write failure (connection broke while the write was in progress)")
+	}
+	u.mu.Unlock()
 	u.mu.Lock()
 	defer u.mu.Unlock()
 	select {
@@ -59,12 +73,30 @@ func (u *utr) Read() ([]byte, error) {
 	case b := <-u.in:
 		return b, nil
 	case <-u.failR:
+		select { // a message that arrived before the failure is still handed up first
+		case b := <-u.in:
+			return b, nil
+		default:
+		}
 		return nil, errors.New("scripted read failure")
 	case <-u.done:
+		select {
+		case b := <-u.in:
+			return b, nil
+		default:
+		}
 		return nil, transport.ErrAlreadyClosed
 	}
 }
-func (u *utr) Close() error                                       { u.once.Do(func() { close(u.done) }); return nil }
+func (u *utr) Close() error {
+	u.once.Do(func() { close(u.done) })
+	u.mu.Lock()
+	defer u.mu.Unlock()
+	if u.closeErr {
+		return errors.New("scripted error while closing (peer vanished)")
+	}
+	return nil
+}
 func (u *utr) CloseWithStatus(transport.CloseStatus) error        { return u.Close() }
 func (u *utr) RxBytesCounterValue() uint64                        { return 0 }
 func (u *utr) TxBytesCounterValue() uint64                        { return 0 }
@@ -191,7 +223,11 @@ func (i *impl) exec(op string) string {
 		}
 		b, _ := strconv.Atoi(w[1])
 		*i = impl{budget: b}
-		tr, err := reconnect.Dial(reconnect.DialConfig{Dialer: i, DialConfig: transport.DialConfig{TransportID: "tid-1", EncodingName: "proto"},
+		tid := transport.TransportID("tid-1")
+		if len(w) > 2 && w[2] == "gen" {
+			tid = "" // the transport generates its own id
+		}
+		tr, err := reconnect.Dial(reconnect.DialConfig{Dialer: i, DialConfig: transport.DialConfig{TransportID: tid, EncodingName: "proto"},
 			MaxReconnectAttempts: b, ReconnectInterval: time.Millisecond})
 		if err != nil {
 			return "err"
@@ -236,6 +272,43 @@ func (i *impl) exec(op string) string {
 			sort.Strings(res)
 			return "burst " + strings.Join(res, ",")
 		})
+	case "gatedpair":
+		// A is parked inside the underlying Write; B is issued behind it; then A's write fails and the transport redials.
+		u := i.cur()
+		u.mu.Lock()
+		u.gate = make(chan struct{})
+		u.entered = make(chan struct{})
+		gate, entered := u.gate, u.entered
+		u.mu.Unlock()
+		ra, rb := make(chan error, 1), make(chan error, 1)
+		go func() { ra <- i.tr.Write(lp.UnHex(w[1])) }()
+		select {
+		case <-entered:
+		case <-time.After(watchdog):
+			close(gate)
+			return "hang"
+		}
+		go func() { rb <- i.tr.Write(lp.UnHex(w[2])) }()
+		time.Sleep(5 * time.Millisecond) // let B reach the request queue (not needed for soundness: A was issued first)
+		close(gate)
+		res := func(c chan error) string {
+			select {
+			case err := <-c:
+				if err != nil {
+					return "err"
+				}
+				return "ok"
+			case <-time.After(watchdog):
+				return "hang"
+			}
+		}
+		return "pair " + res(ra) + " " + res(rb)
+	case "closeerr":
+		u := i.cur()
+		u.mu.Lock()
+		u.closeErr = true
+		u.mu.Unlock()
+		return "ok"
 	case "failw":
 		u := i.cur()
 		u.mu.Lock()
@@ -393,7 +466,11 @@ func main() {
 	for c := 0; c < h.N; c++ {
 		budget := 1 + rng.Intn(3)
 		h.Case(fmt.Sprintf("rnd %d budget=%d", c, budget))
-		do(fmt.Sprintf("new %d", budget))
+		if rng.Intn(3) == 0 {
+			do(fmt.Sprintf("new %d gen", budget))
+		} else {
+			do(fmt.Sprintf("new %d", budget))
+		}
 		var okWrites []string // payloads whose Write returned nil, in issue order
 		pendingReads := 0
 		alive := true
@@ -453,6 +530,20 @@ func main() {
 					alive = false
 				}
 				sig += "p"
+			case k == 10 && rng.Intn(2) == 0:
+				pa, pb := lp.Hex([]byte{byte(c), byte(seq), 0xa1}), lp.Hex([]byte{byte(c), byte(seq), 0xb2})
+				out := do("gatedpair " + pa + " " + pb)
+				f := strings.Fields(out)
+				if len(f) == 3 && f[1] == "ok" {
+					okWrites = append(okWrites, pa)
+				}
+				if len(f) == 3 && f[2] == "ok" {
+					okWrites = append(okWrites, pb)
+				}
+				if strings.Contains(out, "err") {
+					alive = false
+				}
+				sig += "g"
 			case k == 10:
 				n := 2 + rng.Intn(4)
 				var ps []string
@@ -469,6 +560,9 @@ func main() {
 					// drain first: a message taken before Close may still be returned by a Read racing with Close
 					for ; pendingReads > 0; pendingReads-- {
 						do("read")
+					}
+					if rng.Intn(3) == 0 {
+						do("closeerr") // the underlying Close itself reports an error
 					}
 					do("close")
 					alive = false
@@ -521,7 +615,7 @@ func main() {
 		do("dials")
 		// redials keep the transport id and set the reconnect flag
 		for k, d := range im.dials {
-			if d.tid != "tid-1" || d.reconnect != (k > 0) {
+			if d.tid == "" || d.tid != im.dials[0].tid || d.reconnect != (k > 0) {
 				h.Violate(fmt.Sprintf("dial %d used transport id %q reconnect=%v", k, d.tid, d.reconnect))
 			}
 		}
